@@ -20,7 +20,7 @@ func genC13(dir, tier string, seed int64) {
 	}
 	hdr := "From Coq Require Import List String ZArith.\nFrom V Require Import Case Run CheckC01 CheckC13.\nImport ListNotations.\nOpen Scope string_scope.\nOpen Scope Z_scope.\nDefinition cases : list scase := ["
 	cw := newCaseWriter(dir, "C13_signatures", hdr, opFooter,
-		"seeded random signatures: 1..3 declared inputs of rank 1..4, each dimension fixed (1..4), symbolic or unspecified; 0..1 of them shadowed by an initializer; one node reads every input, except (one case in three) a further declared input that no node reads; supplied sets: exact (dynamic dimensions of random size), one tensor missing, an extra tensor, tensors swapped between names, rank -1/+1 (0..5), one axis off by one, initializer-shadowed input supplied or not", false, 300)
+		"seeded random signatures: 1..3 declared inputs of rank 1..4, each dimension fixed (1..4; one in 25 negative, which no tensor satisfies), symbolic or unspecified; 0..1 of them shadowed by an initializer; one node reads every input, except (one case in three) a further declared input that no node reads; supplied sets: exact (dynamic dimensions of random size), one tensor missing, an extra tensor, tensors swapped between names, rank -1/+1 (0..5), one axis off by one, initializer-shadowed input supplied or not", false, 300)
 	intro := goOnlyResult{Stream: "C13_introspection_and_purity", Rule: "for every generated signature: InputNames/InputShapes/InputDimSize report exactly the declared names, ranks, fixed sizes and dynamic flags; a rejected Run returns no outputs and leaves every supplied tensor bit-identical", Violations: []string{}}
 	for i := 0; i < n; i++ {
 		c := &sgraphCase{initVals: map[string]stens{}, feed: map[string]stens{}, opset: 13}
@@ -34,8 +34,13 @@ func genC13(dir, tier string, seed int64) {
 				switch r.Intn(3) {
 				case 0:
 					v := int64(1 + r.Intn(4))
-					in.dims = append(in.dims, sdim{kind: "fixed", value: v})
 					shape[a] = int(v)
+					if r.Intn(25) == 0 {
+						// a negative dim_value: reported as a fixed size by the introspection methods, so
+						// enforced as one (no tensor has it: every tensor is rejected)
+						v = -int64(1 + r.Intn(3))
+					}
+					in.dims = append(in.dims, sdim{kind: "fixed", value: v})
 				case 1:
 					in.dims = append(in.dims, sdim{kind: "param", name: fmt.Sprintf("N%d", a)})
 					shape[a] = 1 + r.Intn(5)
